@@ -180,9 +180,9 @@ func runC08(c *Ctx) {
 					return false
 				}
 				// the found index: the value the unknown-offset test compares with -1 / 0
-				for _, blk := range fn.Blocks {
+				for _, blk := range append(append([]*ssa.BasicBlock{}, fn.Blocks...), EnclosingTop(bo.Parent()).Blocks...) {
 					for _, in := range blk.Instrs {
-						if cb, ok := in.(*ssa.BinOp); ok && cb.X == bo.X && (Term(cb.Y) == "-1" || Term(cb.Y) == "0") {
+						if cb, ok := in.(*ssa.BinOp); ok && cb.X == resolveParam(bo.X) && (Term(cb.Y) == "-1" || Term(cb.Y) == "0") {
 							switch cb.Op {
 							case token.EQL, token.NEQ, token.LSS, token.GEQ:
 								return true
